@@ -76,6 +76,9 @@ def exhaustive(tier):
         for method in ("best", "aes", "xor"):
             for n in (1, 15, 16, 17, 31, 32, 33, 47, 48, 49, 63, 64, 65, 100, 257, 1000):
                 yield {"mode": "secret-sweep", "fmt": fmt, "method": method, "n": n}
+    for fmt in trees.FORMATS:
+        for i in range(len(TEXT_CHARS)):
+            yield {"mode": "text-sweep", "fmt": fmt, "char": i}
     for fmt in ("yaml", "pickle"):
         for name in PY_VALUES:
             for slot in ("any", "nested-any", "list-item", "dict-value", "dynamic"):
@@ -201,6 +204,49 @@ def _size_sweep(case, R):
         R.nontrivial = n % 16 == 11  # a thin, measured slice counts as non-trivial (sizes around length-byte boundaries)
 
 
+TEXT_CHARS = ["\x85", "\u2028", "\u2029", "\r", "\r\n", "\n", "\t", "\x0b", "\x0c", "\x1c", "\x1e", "\x7f", "\xa0", "\ufeff", "\u200b", "\x00", "\x1b", "\ud7ff", "\ue000", "\ufffd",
+              "\U0001f511", "'", '"', "\\", ": ", " #", "- ", "|", ">", "%", "@", "`", "!", "&", "*", "?", "{", "[", "<", "]]>", "&amp;", "~", "null", "yes", "1e3", "0x1f", "1_000", "=", "<<"]
+
+
+def _text_sweep_case(case, R):
+    """Strings holding one awkward character / token (line separators of every kind, YAML and XML syntax characters, words that
+    read as other types), at the start, in the middle, at the end and alone, in typed and untyped slots: the saved file loads back equal."""
+    cc = sandbox._state["cc"]
+    fmt, ch = case["fmt"], TEXT_CHARS[case["char"]]
+    R.label("text-sweep:" + fmt)
+    texts = [ch, "a" + ch + "b", ch + "b", "a" + ch, "a " + ch + " b", "line one" + ch + "line two" + ch]
+    texts = [t for t in texts if ops.is_plain(t, fmt)]
+    if not texts:
+        R.label("text-sweep:outside-format-domain")
+        return
+    R.nontrivial = not ch.isascii() or ch in ("\r", "\r\n", "\x0b", "\x0c", "\x1c", "\x1e")
+    schema = cc.Schema()
+    schema.typed = cc.ListField(cc.StringField())
+    schema.loose = cc.ListField()
+    schema.one = cc.StringField()
+    schema.sub.table = cc.DictField(cc.StringField(), cc.StringField())
+    with sandbox.CaseDir() as d:
+        cfg = schema(key_filename=os.path.join(d, "key"))
+        cfg.typed, cfg.loose, cfg.one = list(texts), list(texts), texts[1 % len(texts)]
+        cfg.sub.table = {"k%d" % i: t for i, t in enumerate(texts)}
+        dest = os.path.join(d, "text." + fmt)
+        try:
+            cfg.save(dest, fmt)
+        except Exception:
+            R.label("text-sweep:save-refused")
+            return
+        try:
+            fresh = schema(key_filename=os.path.join(d, "key"))
+            fresh.load(dest, fmt)
+            got = (list(fresh.typed), list(fresh.loose), fresh.one, dict(fresh.sub.table))
+            err = None
+        except Exception as exc:
+            got, err = None, exc
+        want = (list(texts), list(texts), texts[1 % len(texts)], {"k%d" % i: t for i, t in enumerate(texts)})
+        R.check(got == want, "loads-back", "text-sweep:%s:%r" % (fmt, ch),
+                lambda: "strings holding %r saved as %s load back as %r (%r)" % (ch, fmt, got, err))
+
+
 PY_VALUES = ["decimal", "timedelta", "date", "datetime", "ordereddict", "purepath", "complex", "tuple", "set", "frozenset", "bytes", "fraction", "range", "nested"]
 
 
@@ -299,6 +345,8 @@ def run_case(case, R):
         return _size_sweep(case, R)
     if case.get("mode") == "secret-sweep":
         return _secret_sweep(case, R)
+    if case.get("mode") == "text-sweep":
+        return _text_sweep_case(case, R)
     if case.get("mode") == "python-values":
         return _python_values_case(case, R)
     cc = sandbox._state["cc"]
